@@ -197,6 +197,34 @@ Proof.
   repeat split; try reflexivity; lia.
 Qed.
 
+(* the timeout granted with a block: wtx_timeout = (data[1] & 0x3F) * self.fwt goes with the echo of an S(WTX)
+   request (the block the model's [pcd_emit] hands out in the echo states), and it is the model's [blk_timeout]
+   multiple of fwt; every other block goes with the caller's timeout, by default fwt + delta_fwt (= fwt + 49152/fc) *)
+Lemma bridge_wtx_timeout b0 b1 inf fwt : is_wtx b0 = true ->
+  gen_send_wtx_timeout (b0 :: b1 :: inf) fwt = Qmult (inject_Z (blk_timeout (b0 :: b1 :: inf))) fwt /\
+  gen_recv_wtx_timeout (b0 :: b1 :: inf) fwt = Qmult (inject_Z (blk_timeout (b0 :: b1 :: inf))) fwt.
+Proof. intro H. unfold gen_send_wtx_timeout, gen_recv_wtx_timeout, blk_timeout. rewrite H. split; reflexivity. Qed.
+Lemma bridge_default_timeout fwt :
+  gen_default_timeout fwt gen_delta_fwt = Qplus fwt (Qdiv (inject_Z 49152) (inject_Z 13560000)).
+Proof. reflexivity. Qed.
+Lemma blk_timeout_plain pn k cmd off :
+  bit pn -> blk_timeout (iblock k cmd pn off) = 0 /\ blk_timeout [Z.lor 178 pn] = 0 /\ blk_timeout [Z.lor 162 pn] = 0.
+Proof.
+  intros [-> | ->]; unfold iblock, pfb_at, blk_timeout; destruct (more_at k cmd off);
+    destruct (slice cmd off (off + miu k)); repeat split; reflexivity.
+Qed.
+
+Lemma bridge_timeouts b0 b1 inf fwt pn k cmd off : is_wtx b0 = true -> bit pn ->
+  gen_send_wtx_timeout (b0 :: b1 :: inf) fwt = Qmult (inject_Z (blk_timeout (b0 :: b1 :: inf))) fwt /\
+  gen_recv_wtx_timeout (b0 :: b1 :: inf) fwt = Qmult (inject_Z (blk_timeout (b0 :: b1 :: inf))) fwt /\
+  gen_default_timeout fwt gen_delta_fwt = Qplus fwt (Qdiv (inject_Z 49152) (inject_Z 13560000)) /\
+  blk_timeout (iblock k cmd pn off) = 0 /\ blk_timeout [Z.lor 178 pn] = 0 /\ blk_timeout [Z.lor 162 pn] = 0.
+Proof.
+  intros H Hb. destruct (bridge_wtx_timeout b0 b1 inf fwt H) as [H1 H2].
+  destruct (blk_timeout_plain pn k cmd off Hb) as (H3 & H4 & H5).
+  split; [exact H1|]. split; [exact H2|]. split; [apply bridge_default_timeout|]. split; [exact H3|]. split; assumption.
+Qed.
+
 (* ---------------------------------------------------------------- ... composed along the matched skeleton *)
 Section Skeleton.
 Variable k : cfg.
